@@ -38,9 +38,16 @@ class Heartbeat(core.Scenario):
         if p.get('after_idle'):
             # an earlier "generation": a session that came and went (or an open the application rejected), then a server
             # with no sessions for a few ping_timeouts, before the session under observation connects
-            if p['after_idle'] == 'closed_session':
+            if p['after_idle'] in ('closed_session', 'disconnect_all'):
                 s0 = peer.sid_of(peer.open_polling(w))
                 peer.post(w, s0, '1')
+                if p['after_idle'] == 'disconnect_all':
+                    # ... and the application then disconnected "everybody" (the table is empty by now; with sessions in it
+                    # the threaded disconnect() blocks - known finding KF-C15)
+                    w.http('GET', peer.BASEQ + '&sid=' + s0)
+                    w.run()
+                    w.call('disconnect')
+                    w.run()
             else:
                 w.http('GET', peer.BASEQ, headers={'X-Reject': '1'})
                 w.run()
@@ -311,7 +318,7 @@ def param_list(ctx):
                                            'monitor': mon, 'send_at': None, 'client_msg': True})
                             if seq in ((), ('early',)) and mon:
                                 # the session under observation is not the first "generation" of this server
-                                for pre in ('closed_session', 'rejected_open'):
+                                for pre in ('closed_session', 'rejected_open', 'disconnect_all'):
                                     ps.append({'impl': impl, 'grid': list(g), 'transport': tr, 'delays': list(seq), 'mode': mode,
                                                'monitor': True, 'send_at': None, 'after_idle': pre})
                             if tr == 'polling' and seq == () and mode == 'mute' and iv > 0.25:
